@@ -548,6 +548,15 @@ func (w *World) ruleUntrustedInts(rule string) {
 		}
 	}
 	w.stat("computed_array_index_sites_hash_random", nh)
+	// (f) re-slicing past the length: `x[:h]` with h computed from len(x) (len(x)+k, a rounded-up length, …) relies on
+	//     spare capacity.  Capacity is not part of a slice's contract once append has been applied to it (append may or
+	//     may not reallocate) and what lies between len and cap is stale memory, so such a bound is accepted only when
+	//     h <= len(x) is proved, or x is the direct result of make with a capacity proved sufficient.
+	var extFns []*ssa.Function
+	for _, pp := range []string{rootPath, hashPath, randomPath} {
+		extFns = append(extFns, w.srcFuncs(pp)...)
+	}
+	w.stat("slice_extension_sites", w.ruleSliceExtensions(rule, extFns))
 }
 
 func dependsOnParam(v ssa.Value, p *ssa.Parameter, d int) bool {
@@ -889,4 +898,139 @@ func (w *World) ruleCgoAliasing(rule string) {
 	if n == 0 {
 		w.undecided(rule, "cgo-calls", token.NoPos, "no cgo call with both written and read pointer arguments found")
 	}
+}
+
+
+// lenCallOf: v is len(X') with X' the same slice as X.
+func lenCallOf(v ssa.Value, X ssa.Value) bool {
+	c, ok := stripConv(v).(*ssa.Call)
+	if !ok {
+		return false
+	}
+	b, ok := c.Call.Value.(*ssa.Builtin)
+	return ok && b.Name() == "len" && len(c.Call.Args) == 1 && (c.Call.Args[0] == X || render(c.Call.Args[0]) == render(X))
+}
+
+func mentionsLenOf(v ssa.Value, X ssa.Value, d int) bool {
+	if d > 8 {
+		return false
+	}
+	if lenCallOf(v, X) {
+		return true
+	}
+	switch x := stripConv(v).(type) {
+	case *ssa.BinOp:
+		return mentionsLenOf(x.X, X, d+1) || mentionsLenOf(x.Y, X, d+1)
+	case *ssa.UnOp:
+		return x.Op != token.MUL && mentionsLenOf(x.X, X, d+1)
+	}
+	return false
+}
+
+// leLen: h <= len(X) follows from the shape of h (len(X) minus / divided by / masked with a non-negative quantity,
+// a multiple of a quotient of len(X) by the same constant) — sound for the non-negative len(X).
+func (w *World) leLen(h ssa.Value, X ssa.Value, at ssa.Instruction, d int) bool {
+	if d > 6 {
+		return false
+	}
+	if lenCallOf(h, X) {
+		return true
+	}
+	bo, ok := stripConv(h).(*ssa.BinOp)
+	if !ok {
+		return false
+	}
+	nonNeg := func(v ssa.Value) bool {
+		lo, _, ok := w.intBound(v, at)
+		return ok && lo >= 0
+	}
+	pos := func(v ssa.Value) (int64, bool) {
+		c, ok := constOf(v)
+		if !ok {
+			return 0, false
+		}
+		n, ok := constInt64(c.Value)
+		return n, ok && n > 0
+	}
+	switch bo.Op {
+	case token.SUB:
+		return w.leLen(bo.X, X, at, d+1) && nonNeg(bo.Y)
+	case token.ADD:
+		if _, hi, ok := w.intBound(bo.Y, at); ok && hi <= 0 && w.leLen(bo.X, X, at, d+1) {
+			return true
+		}
+		if _, hi, ok := w.intBound(bo.X, at); ok && hi <= 0 && w.leLen(bo.Y, X, at, d+1) {
+			return true
+		}
+	case token.QUO, token.SHR:
+		if _, ok := pos(bo.Y); ok || bo.Op == token.SHR {
+			return w.leLen(bo.X, X, at, d+1)
+		}
+	case token.REM:
+		return w.leLen(bo.X, X, at, d+1)
+	case token.AND, token.AND_NOT:
+		return w.leLen(bo.X, X, at, d+1) || (bo.Op == token.AND && w.leLen(bo.Y, X, at, d+1))
+	case token.MUL:
+		// (len/c)*c
+		for _, pr := range [][2]ssa.Value{{bo.X, bo.Y}, {bo.Y, bo.X}} {
+			if c, ok := pos(pr[1]); ok {
+				if q, ok := stripConv(pr[0]).(*ssa.BinOp); ok && q.Op == token.QUO {
+					if c2, ok := pos(q.Y); ok && c2 == c && w.leLen(q.X, X, at, d+1) {
+						return true
+					}
+				}
+			}
+		}
+	}
+	return false
+}
+
+// ruleSliceExtensions: see (f) in ruleUntrustedInts.  Returns the number of sites examined.
+func (w *World) ruleSliceExtensions(rule string, fns []*ssa.Function) int {
+	n := 0
+	for _, fn := range fns {
+		if isTestFile(w, fn.Pos()) {
+			continue
+		}
+		instrsFlat(fn, func(ins ssa.Instruction) {
+			x, ok := ins.(*ssa.Slice)
+			if !ok || x.High == nil {
+				return
+			}
+			if _, isSl := x.X.Type().Underlying().(*types.Slice); !isSl {
+				return
+			}
+			if !mentionsLenOf(x.High, x.X, 0) {
+				return
+			}
+			n++
+			key := fmt.Sprintf("%s/slice-extension:%s", fnKey(fn), shortCond(render(x.X)))
+			if w.leLen(x.High, x.X, ins, 0) {
+				w.ok(rule, key, ins.Pos(), "upper bound is at most len of the sliced value by construction")
+				return
+			}
+			hs, xs := render(x.High), render(x.X)
+			for _, f := range w.factsAt(ins) {
+				if f.Expr == cmpFact(hs, "<=", "len("+xs+")") || f.Expr == cmpFact(hs, "<", "len("+xs+")") {
+					w.ok(rule, key, ins.Pos(), "upper bound tested against the length: "+f.Expr)
+					return
+				}
+			}
+			if _, hi, ok1 := w.intBound(x.High, ins); ok1 {
+				if lo, _, ok2 := w.lenBound(x.X, ins); ok2 && hi <= lo {
+					w.ok(rule, key, ins.Pos(), fmt.Sprintf("upper bound <= %d <= length", hi))
+					return
+				}
+				if mk, isMk := stripConv(x.X).(*ssa.MakeSlice); isMk {
+					if cl, _, ok3 := w.intBound(mk.Cap, ins); ok3 && hi <= cl {
+						w.ok(rule, key, ins.Pos(), "extension within the capacity given to make")
+						return
+					}
+				}
+			}
+			w.viol(rule, key, ins.Pos(),
+				fmt.Sprintf("`%s` is re-sliced to `%s`, which can exceed its length: this relies on spare capacity that is not proved (after append the capacity is whatever the allocator chose) and exposes whatever bytes lie beyond the length — slice-bounds panic or stale data for some input lengths / call histories", shortCond(xs), shortCond(hs)), factStrings(w.factsAt(ins))...)
+		})
+	}
+	return n
 }
